@@ -795,6 +795,9 @@ impl Eval {
             Val::Unit => b"null".to_vec(),
             Val::Bool(b) => b.to_string().into_bytes(),
             Val::Int(_, i) => i.to_string().into_bytes(),
+            // JSON has no NaN and no infinities: null
+            Val::F32(f) if !f.is_finite() => b"null".to_vec(),
+            Val::F64(f) if !f.is_finite() => b"null".to_vec(),
             Val::F32(f) => gofmt::format_f32_v(*f).into_bytes(),
             Val::F64(f) => gofmt::format_f64_v(*f).into_bytes(),
             Val::Str(s) => json_quote(s),
